@@ -10,6 +10,7 @@ import Proofs.ContainerSeqOf
 import Proofs.ContainerRec
 import Proofs.ContainerChoice
 import Proofs.ContainerDyn
+import Proofs.KernelGate
 
 namespace Asn1.C19
 open Asn1.Container
@@ -191,5 +192,31 @@ example : choiceIllFormed 2 (.setItemPos 2 (.py 1)) = true := by decide
 example : Choice.Inv 2 ⟨some [], none⟩ := inv_fresh 2
 example : (DynSpec.run none [.setItemPos 0 (.obj 4), .setItemPos 1 (.obj 5), .setItemName 0 (.py 7), .setItemPos 3 (.obj 1),
     .getItemName 1, .clone true, .keys]).1 = some [7, 5] := by decide
+
+/-! ### at the source level: how SEQUENCE OF / SET OF objects read an index -/
+
+/-- **index normalisation at the source level is the list model's**: the statement `if idx < 0: idx = len(self) + idx; if
+    idx < 0: raise ...` as it stands in `SequenceOfAndSetOfBase.getComponentByPosition` and in `setComponentByPosition`
+    (translated from /repo on this run into `GenK.seqOfGetIdx` / `GenK.seqOfSetIdx`, `len(self)` a parameter) computes the
+    model's `SeqOf.normIdx` for every object state and every integer index: as a Python list counts, and the library's error
+    - not a wrap-around - before the front -/
+theorem source_index_normalisation_is_model (st : SeqOfSt) (i : Int) :
+    GenK.seqOfGetIdx (SeqOf.len st : Int) i = Kernels.liftIdx (SeqOf.normIdx st i) ∧
+      GenK.seqOfSetIdx (SeqOf.len st : Int) i = Kernels.liftIdx (SeqOf.normIdx st i) :=
+  ⟨Kernels.seqOfGetIdx_kernel st i, Kernels.seqOfSetIdx_kernel st i⟩
+
+/-- an index before the front of an `n`-element object is refused, never mapped onto an element -/
+theorem source_index_before_front_is_refused (st : SeqOfSt) (i : Int) (h : i < -(SeqOf.len st : Int)) :
+    GenK.seqOfGetIdx (SeqOf.len st : Int) i = .error (.lib "PyAsn1Error") := by
+  rw [Kernels.seqOfGetIdx_kernel]
+  have h0 : ¬ (0 ≤ i) := by omega
+  have h1 : ¬ (0 ≤ (SeqOf.len st : Int) + i) := by omega
+  simp [SeqOf.normIdx, h0, h1, Kernels.liftIdx]
+
+/-- non-vacuity: three elements; -1 is the last, -3 the first, -4 refused -/
+example : GenK.seqOfGetIdx 3 (-1) = .ok 2 := by rfl
+example : GenK.seqOfGetIdx 3 (-3) = .ok 0 := by rfl
+example : GenK.seqOfGetIdx 3 (-4) = .error (.lib "PyAsn1Error") := by rfl
+example : GenK.seqOfSetIdx 3 5 = .ok 5 := by rfl
 
 end Asn1.C19
